@@ -922,9 +922,8 @@ def set_rule(ctx):
         "stream txt: code bases without #include / -include / symbolic links (cross-file attribution is C04's layer); every "
         "configuration entry names a code-base file; ASCII texts with \\n newlines; platform names distinct; front end chosen by "
         "the file extension (C family / free-form Fortran; asm sources are not generated and not modelled); for a Fortran file the "
-        "spec side is C17's reference scanner under C17's guard without lines of finding class F-C17-2 (a continuation line whose `#` "
-        "opens the text of a statement that began with lone `&` lines, read by the code as a directive); inside it the grouping of "
-        "the counted lines into nodes is proved for the model (C17.nodes_eq_ref) and compared as well",
+        "spec side is C17's reference scanner under C17's guard; inside it the grouping of the counted lines into nodes is proved "
+        "for the model (C17.nodes_eq_ref) and compared as well",
     ]
 
 
